@@ -795,12 +795,16 @@ def oracle_c10(rr: Any, spec: Dict[str, Any]) -> "tuple[List[Violation], int]":
             tok = e.get("tok") or e.get("task_id")
             sends[tok].append(e)
     via2 = {c["tok"] for c in spec.get("client_sends", []) if c.get("via_broker2")}
+    requeuers = {c["tok"] for c in spec.get("client_sends", []) if isinstance(c.get("beh"), list) and c["beh"][0].get("out") == "requeue"}
     unencodable = {c["tok"] for c in spec.get("client_sends", []) if c.get("bad_arg")}
     mws2 = spec.get("mws2", [])
     for tok, evs in sends.items():
         if first(evs, "send_begin") is None:
             continue
         checked += 1
+        if tok in requeuers:
+            # Context.requeue() hands the message to the broker directly (no kicker): that kick is not a send of the client
+            evs = [e for e in evs if not (e["k"] == "kick" and e.get("m") is not None)]
         seq = [(e["k"], e.get("mw")) for e in evs if e["k"] not in ("send_begin", "send_ok", "send_err", "kick_fail")]
         failed = first(evs, "kick_fail") is not None
         if tok in via2:
@@ -859,9 +863,12 @@ def oracle_c10(rr: Any, spec: Dict[str, Any]) -> "tuple[List[Violation], int]":
     # ---- worker side: per delivery
     per = by_delivery(tr)
     send_of = {s_["tok"]: s_ for s_ in spec.get("client_sends", [])}
+    seen_toks: set = set()
     for info in rr.sc.deliveries:
         d = info["d"]
         evs = per.get(d, [])
+        again = info["tok"] in seen_toks  # a later delivery of a message the worker has handled before
+        seen_toks.add(info["tok"])
         if first(evs, "cb_exit") is None or first(evs, "cb_enter") is None or info["kind"] != "valid":
             continue
         checked += 1
@@ -908,7 +915,8 @@ def oracle_c10(rr: Any, spec: Dict[str, Any]) -> "tuple[List[Violation], int]":
                     break
         arrived = (first(evs, "mw:pre_execute") or {}).get("marks", [])
         # a re-sent message (retry middleware) arrives with the markers its previous delivery had collected
-        marks = sorted(k for k in arrived if "pre_send" in k or spec.get("retry"))
+        # (so does one that its task handed back with Context.requeue())
+        marks = sorted(k for k in arrived if "pre_send" in k or spec.get("retry") or (again and info["tok"] in requeuers))
         for e in evs:
             if e["k"] == "mw:pre_execute":
                 if e["marks"] != sorted(set(marks)):
